@@ -83,7 +83,21 @@ func execC15Addr(in sx.V) sx.V {
 	} else {
 		r3 = sx.Bytes(mustHash(stateInitCell(&si)))
 	}
-	return sx.L(r1, r2, r3)
+	if o.wc != nil || o.sub != nil || o.net != nil {
+		return sx.L(r1, r2, r3, sx.A("skip"))
+	}
+	return sx.L(r1, r2, r3, codeHashSx(ver))
+}
+
+// GetCodeHashByVer (panics for a version without code)
+func codeHashSx(ver wallet.Version) (out sx.V) {
+	defer func() {
+		if rec := recover(); rec != nil {
+			out = sx.A("none")
+		}
+	}()
+	h := wallet.GetCodeHashByVer(ver)
+	return sx.Bytes(h[:])
 }
 
 // ---- account states: 'none 'uninit 'frozen ('active data-cell)
@@ -334,10 +348,15 @@ func historyRun(ver wallet.Version, seed []byte, o wopts, ops []sx.V, fresh bool
 	mk := func() (wallet.Wallet, error) {
 		return wallet.New(ed25519.NewKeyFromSeed(seed), ver, &fakeChain{}, o.options()...)
 	}
-	w, err := mk()
+	// the private key lives in a buffer the CALLER owns and may reuse after New
+	buf := append(ed25519.PrivateKey{}, ed25519.NewKeyFromSeed(seed)...)
+	orig := append([]byte{}, buf...)
+	rekeyed := false
+	w, err := wallet.New(buf, ver, &fakeChain{}, o.options()...)
 	if err != nil {
 		return sx.A("err")
 	}
+	defer func() { _ = orig }()
 	var last *tlb.StateInit
 	var answers []sx.V
 	for _, op := range ops {
@@ -367,6 +386,17 @@ func historyRun(ver wallet.Version, seed []byte, o wopts, ops []sx.V, fresh bool
 				a.Address[0] ^= 0xff // the caller's copy
 				a.Workchain++
 				return out
+			case op.Head() == "rekey":
+				// the caller refills its key buffer (next wallet of a loop, or wiping); the library must not have
+				// written to it before
+				if !rekeyed && !fresh && !bytes.Equal(buf, orig) {
+					return sx.A("key-buffer-modified-by-library")
+				}
+				if !fresh {
+					copy(buf, op.List[3].Bytes)
+					rekeyed = true
+				}
+				return sx.A("ok")
 			case op.Head() == "mutate":
 				if last != nil {
 					c := cellFromSx(op.List[2])
@@ -633,8 +663,34 @@ func genC15(c *Ctx) {
 			}
 			in := sx.L(sx.Nat(int(ver)), sx.Bytes(pk), o.sx(), sx.Bytes(seed))
 			out := c.Emit("c15.addr", in, fmt.Sprintf("addr|v%d|nopts=%d", int(ver), c15b2i(o.wc != nil)+c15b2i(o.sub != nil)+c15b2i(o.net != nil)))
-			if out.K != sx.KL || len(out.List) != 3 {
+			if out.K != sx.KL || len(out.List) != 4 {
 				continue
+			}
+			// oracle: the code hash identifies the version (GetVerByCodeHash, GetWalletVersion on an active account
+			// running that code and on an uninitialised one deployed by a message carrying it)
+			if out.List[3].K == sx.KBytes {
+				var h tlb.Bits256
+				copy(h[:], out.List[3].Bytes)
+				if v, ok := wallet.GetVerByCodeHash(h); !ok || v != ver {
+					c.Fail("c15.addr", in, "c15-code-hash", "GetVerByCodeHash does not give the version back")
+				}
+				var st tlb.ShardAccount
+				st.Account.SumType = "Account"
+				st.Account.Account.Storage.State.SumType = "AccountActive"
+				st.Account.Account.Storage.State.AccountActive.StateInit.Code.Exists = true
+				st.Account.Account.Storage.State.AccountActive.StateInit.Code.Value.Value = *wallet.GetCodeByVer(ver)
+				if v, ok, err := wallet.GetWalletVersion(st, tlb.Message{}); err != nil || !ok || v != ver {
+					c.Fail("c15.addr", in, "c15-code-hash", "GetWalletVersion does not recognise an active account running the version's code")
+				}
+				var un tlb.ShardAccount
+				un.Account.SumType = "AccountNone"
+				var dm tlb.Message
+				dm.Init.Exists = true
+				dm.Init.Value.Value.Code.Exists = true
+				dm.Init.Value.Value.Code.Value.Value = *wallet.GetCodeByVer(ver)
+				if v, ok, err := wallet.GetWalletVersion(un, dm); err != nil || !ok || v != ver {
+					c.Fail("c15.addr", in, "c15-code-hash", "GetWalletVersion does not recognise the code in a deploying message")
+				}
 			}
 			// oracle: the three APIs give the same address = (workchain, hash of the state-init)
 			if out.List[0].String() != out.List[1].String() {
@@ -789,6 +845,26 @@ func genC15(c *Ctx) {
 				if out.List[0].U64() != d.seqno || len(out.List[1].List) != 0 {
 					c.Fail("c15.next", in, "c15-active-seqno", "NextMessageParams does not return the stored seqno without state-init for an active account")
 				}
+				if ver == wallet.V5R1 {
+					// GetW5R1ExtensionsList reads the same dictionary
+					ext, err := wallet.GetW5R1ExtensionsList(shardAccount(sx.L(sx.A("active"), cellToSx(d.cell))), -1)
+					okList := err == nil && len(ext) == len(d.keys)
+					for _, k := range d.keys {
+						var a ton.AccountID
+						a.Workchain = -1
+						for i := 0; i < 256; i++ {
+							if k[i] == '1' {
+								a.Address[i/8] |= 1 << uint(7-i%8)
+							}
+						}
+						if _, ok := ext[a]; !ok {
+							okList = false
+						}
+					}
+					if !okList {
+						c.Fail("c15.next", in, "c15-extensions-list", "GetW5R1ExtensionsList does not list exactly the installed extensions")
+					}
+				}
 				if out.List[2].String() != d.fields().String() {
 					c.Fail("c15.next", in, "c15-data-fields", "the decoded data struct differs from the stored fields: "+out.List[2].String()+" / "+d.fields().String())
 				}
@@ -813,6 +889,12 @@ func genC15(c *Ctx) {
 					ops = append(ops, sx.L(sx.A("mutate"), sx.Nat(r.Intn(5)), cellToSx(randTinyCell(r, 1))))
 				case k < 7:
 					ops = append(ops, sx.A("address"))
+				case k < 8:
+					nk := ed25519.NewKeyFromSeed(r.Bytes(32))
+					if r.Chance(30) {
+						nk = make([]byte, 64) // wiped
+					}
+					ops = append(ops, sx.L(sx.A("rekey"), sx.Nat(0), sx.L(), sx.Bytes(nk)))
 				default:
 					st, _ := acctSx(r, ver, r.Intn(4))
 					ops = append(ops, sx.L(sx.A("next"), st))
@@ -822,6 +904,10 @@ func genC15(c *Ctx) {
 				ops = []sx.V{sx.A("stateinit"), sx.L(sx.A("mutate"), sx.Nat(0), cellToSx(randTinyCell(r, 1))), sx.A("stateinit"),
 					sx.L(sx.A("next"), sx.A("none")), sx.L(sx.A("mutate"), sx.Nat(4), cellToSx(randTinyCell(r, 0))), sx.L(sx.A("next"), sx.A("uninit")),
 					sx.A("address"), sx.A("stateinit")}
+			}
+			if rep == 1 { // a key buffer reused for the next wallet: the first wallet must keep its identity
+				ops = []sx.V{sx.A("stateinit"), sx.L(sx.A("rekey"), sx.Nat(0), sx.L(), sx.Bytes(ed25519.NewKeyFromSeed(r.Bytes(32)))), sx.A("stateinit"),
+					sx.A("address"), sx.L(sx.A("next"), sx.A("none")), sx.L(sx.A("next"), sx.A("uninit"))}
 			}
 			in := sx.L(sx.Nat(int(ver)), sx.Bytes(pk), o.sx(), sx.Bytes(seed), sx.L(ops...))
 			out := c.Emit("c15.history", in, fmt.Sprintf("history|v%d|len=%d", int(ver), len(ops)/3))
@@ -878,11 +964,11 @@ func genC15(c *Ctx) {
 				}
 				var ms rawMsgs
 				var ssx []sx.V
-				for i := 0; i < n; i++ {
+				for len(ms) < n {
 					sd := randSendable(r)
 					m, err := sd.raw()
 					if err != nil {
-						continue
+						continue // a ContractDeploy without data
 					}
 					ms = append(ms, m)
 					ssx = append(ssx, sd.sx())
